@@ -737,7 +737,6 @@ func callbackPipeline(c *Check) {
 	}
 }
 
-
 // storesIntoParam: does fn (or a repository callee or closure the value is
 // passed to) store into memory reached from the root value (a parameter or
 // a free variable)? Struct copies are followed: a store through a slice,
@@ -964,7 +963,6 @@ func storesIntoParam(p *Prog, fn *ssa.Function, root ssa.Value, depth int) strin
 	})
 	return found
 }
-
 
 // holdsType: a value of type tp can hold (store) a value of a type accepted
 // by match: directly, through pointers, slices, arrays, maps, the type
